@@ -145,8 +145,10 @@ def exp_formats(tier, seed):
     rnd.shuffle(rest16)
     n16 = 4 if tier == 'quick' else len(rest16)
     f16 = fixed16 + rest16[:n16]
+    # always present: unsigned 32-bit reps with negative exponents (the sign-compare class, repaired) and signed reps with positive
+    # exponents (negative inputs lie below the range of Rep: the floor-wraps class, repaired)
     fixed32 = [('i32', -16), ('u32', -16), ('i32', -30), ('u32', -31), ('i32', -1), ('i32', 0), ('u32', 0), ('i32', 3), ('u32', 2),
-               ('i32', -24), ('i32', -8)]
+               ('i32', -24), ('i32', -8), ('u32', -24), ('u32', -8), ('u32', -1), ('i32', 1)]
     rest32 = [(t, e) for t in ('u32', 'i32') for e in range(-(digits(t) - 1), 4) if (t, e) not in fixed32]
     rnd.shuffle(rest32)
     n32 = 10 if tier == 'quick' else len(rest32)
